@@ -4,8 +4,8 @@
 //   for EVERY section content, EVERY relocation offset (inside or outside the section), EVERY
 //   relocation type number, symbol flags, output kind and section flags,
 //   <ElfX86_64 as Arch>::new_relaxation returns (Some or None) without panicking, and when it
-//   returns Some(r), r.apply(..) on that same section returns without panicking and leaves the
-//   offset inside the section.
+//   returns Some(r), r.apply(..) on that same section returns without panicking and does not
+//   move an offset that was inside the section to outside it.
 // These are the functions that index raw section bytes with an offset taken from an input
 // relocation record; Kani's automatic checks (index/slice bounds, arithmetic overflow as in the
 // debug profile, unwrap) are the obligations.
@@ -45,9 +45,11 @@ fn run(r_type: u32) {
         r.apply(&mut bytes[..len], &mut off, &mut addend);
         let _ = r.next_modifier();
         let _ = r.rel_info();
-        // the (possibly moved) field must still start inside the section: the caller slices
-        // `out[offset..]` next
-        assert!(off as usize <= len, "relaxation moved the relocation offset outside the section");
+        // a relaxation never moves a field that started inside the section to outside it (the
+        // caller then takes `out.get_mut(offset..)`, which reports offsets outside the section)
+        if offset <= len as u64 {
+            assert!(off <= len as u64, "relaxation moved the relocation offset outside the section");
+        }
     }
 }
 
